@@ -50,6 +50,10 @@ def build_host():
     return deps, os.path.join(deps, rl[-1])
 
 
+def _is_item_key(k):
+    return not isinstance(k, str)
+
+
 def item_text(it, rend):
     """The item's tokens as written in this variant: the original text, or one of its alternative renderings
     (same tokens; other blanks, line breaks, comments)."""
@@ -90,6 +94,10 @@ MACRO_ITEMS = [
 ]
 
 
+def _is_item_key(k):
+    return not isinstance(k, str)
+
+
 def item_text(it, rend):
     """The item's tokens as written in this variant: the original text, or one of its alternative renderings
     (same tokens; other blanks and line breaks)."""
@@ -104,7 +112,8 @@ def crate_text(items, rend=None, macros_file=None, macro_pad=0):
     """Returns (source text, [(first line, last line, item id)], text of the macros file or None).
     Items of kind `macro` are produced by a `macro_rules!` that lives in a *second file*: their tokens mix
     spans of two files, whose line numbers the variant moves independently (`macro_pad` leading blank lines)."""
-    L = ["#![allow(warnings)]"]
+    # a leading comment of seeded length shifts every byte offset in the file
+    L = ["#![allow(warnings)] //" + "x" * ((rend or {}).get("file_pad", 0))]
     macs = [it for it in items if it.get("kind") == "macro"]
     mtext = None
     if macs:
@@ -259,12 +268,14 @@ def variant_plan(rng, items, v, env_names=()):
                 rend[it["id"]] = 1 + rng.below(len(it["renderings"]))
     if rng.below(2):
         rend["macro_pad"] = [1, 7, 40, 300, 2000][rng.below(5)]
+    if rng.below(2):
+        rend["file_pad"] = [1, 9, 40, 75, 700, 900, 9000, 99000][rng.below(8)]
     return {"v": v, "order": [it["id"] for it in order], "entropy": entropy, "junk": junk, "rend": rend}
 
 
 def run(tier, seed, sessim_bin, env_names=()):
     deps, rlib = build_host()
-    per_family, n_harvest, n_variants = (2, 40, 24) if tier == "quick" else (8, 300, 128)
+    per_family, n_harvest, n_variants = (4, 40, 32) if tier == "quick" else (10, 300, 160)
     rc, out = sh([sessim_bin, "emit-keys", "--seed", str(seed), "--per-family", str(per_family), "--repo", "/repo"])
     if rc != 0:
         raise Harness("emit-keys failed:\n" + out[-2000:])
@@ -366,13 +377,13 @@ def minimise(seed, plan, probe, by_id, ref, deps, rlib):
             entropy = 0
             steps += 1
     # simpler writing: drop the alternative renderings one at a time (the probe's last)
-    for i in [x for x in list(rend) if x != probe and x != "macro_pad"] + ([probe] if probe in rend else []) + (["macro_pad"] if "macro_pad" in rend else []):
+    for i in [x for x in list(rend) if x != probe and x not in ("macro_pad", "file_pad")] + ([probe] if probe in rend else []) + [k for k in ("macro_pad", "file_pad") if k in rend]:
         cand = {k: v for k, v in rend.items() if k != i}
         b, _ = diverges(order, probe, entropy, junk, by_id, ref, deps, rlib, rend=cand)
         if b:
             rend = cand
             steps += 1
-    rend = {k: v for k, v in rend.items() if k in order or k == "macro_pad"}
+    rend = {k: v for k, v in rend.items() if k in order or k in ("macro_pad", "file_pad")}
     _, observed = diverges(order, probe, entropy, junk, by_id, ref, deps, rlib, rend=rend)
     it = by_id[probe]
     why = ("depends on where the `macro_rules!` that produces part of the item sits in its own file (line numbers of two files compared)" if len(order) == 1 and "macro_pad" in rend else
@@ -394,7 +405,7 @@ def replay(path):
     by_id = {it["id"]: it for it in rp["items"]}
     probe = rp["probe"]
     alone, _, _, _, _ = run_rustc("rp_ref", [by_id[probe]], 0, {}, deps, rlib)
-    rend = {(k if k == "macro_pad" else int(k)): v for k, v in (rp.get("rend") or {}).items()}
+    rend = {(k if k in ("macro_pad", "file_pad") else int(k)): v for k, v in (rp.get("rend") or {}).items()}
     mods, _, _, _, _ = run_rustc("rp_var", rp["items"], rp["entropy_seed"], rp.get("junk", {}), deps, rlib, rend)
     print(json.dumps({"probe": by_id[probe], "expected_text": alone.get(probe), "observed_text": mods.get(probe)}, indent=1, ensure_ascii=False))
     if alone.get(probe) != mods.get(probe):
